@@ -98,7 +98,7 @@ def units(tier):  # noqa: F811
     us = _units_b(tier)
     for D in (1, 2, 3, 4, 5):
         us.append({"name": "A chain D=%d" % D, "fn": chain_step, "params": {"D": D}, "budget_s": 100, "certify": D <= 3})
-    B = 100 if tier == "quick" else 1500
+    B = 240 if tier == "quick" else 1500
     for kind in ("value", "group", "group+cancel"):
         us.append({"name": "D=2 raise %s at 1 cancel=1 cancel2=0" % kind, "fn": scope_tree.scn, "budget_s": B,
                    "params": {"props": [PROP], "D": 2, "cancel": 1, "cancel2": 0, "raise_at": (1, kind), "T": 1, "J": 1}})
